@@ -1,3 +1,4 @@
+#![allow(static_mut_refs, unused_imports, dead_code, unused_unsafe)]
 // Kani harnesses for src/compression.rs: inflate stream lifecycle.
 // The three zlib entry points are environment: each returns an arbitrary status code; a ghost
 // counter tracks streams that were initialised and not yet ended.
